@@ -25,6 +25,9 @@ func (s *Server) serveStream(ctx context.Context, r io.Reader, w io.Writer, req 
 		}
 		emptySchema := arrow.NewSchema(nil, nil)
 		s.logIPCWriteErr("error-response", req.Method, writeErrorResponse(w, emptySchema, handlerErr, s.serverID, req.RequestID, s.debugErrors))
+		// The client has already written (or will write) its input stream for
+		// this call; consume it so it is not read as the next request.
+		drainInputStream(r)
 		return handlerErr, nil
 	}
 
